@@ -51,6 +51,35 @@ impl JunosLocal {
     }
 }
 
+#[cfg(feature = "verif")]
+impl JunosLocal {
+    /// Verification hook: same as `connect`, with the child program and arguments chosen by the
+    /// caller. The send and receive handles are the ones used in production.
+    pub(crate) async fn verif_connect(program: &str, args: &[&str]) -> Result<Self, Error> {
+        let mut child = Command::new(program)
+            .stdin(Stdio::piped())
+            .stdout(Stdio::piped())
+            .stderr(Stdio::piped())
+            .args(args)
+            .kill_on_drop(true)
+            .spawn()?;
+        let stdout = child
+            .stdout
+            .take()
+            .ok_or_else(|| io::Error::other("failed to handle for child stdin"))?;
+        let stdin = child
+            .stdin
+            .take()
+            .ok_or_else(|| io::Error::other("failed to handle for child stdin"))?;
+        let handle = Arc::new(child);
+        Ok(Self {
+            handle,
+            stdin,
+            stdout,
+        })
+    }
+}
+
 impl Transport for JunosLocal {
     type SendHandle = Sender;
     type RecvHandle = Receiver;
